@@ -93,7 +93,7 @@ namespace cds { namespace urcu {
     protected:
         //@cond
         general_buffered( size_t nBufferCapacity )
-            : m_Buffer( nBufferCapacity )
+            : m_Buffer( nBufferCapacity < 2 ? 2 : nBufferCapacity )
             , m_nCurEpoch(0)
             , m_nCapacity( nBufferCapacity )
         {}
